@@ -90,6 +90,9 @@ def post_phase(rng, kind, ln, drain=True):
     return post
 
 
+CLONABLE = ("slice", "vecref", "arrref", "range", "rangeref", "numslice")
+
+
 def concurrent(rng, sid, kind, ln=None, nthreads=None, nops=None, p_skip=0.0, hint=None, policy=None):
     if ln is None:
         ln = rng.choice(ARRAY_LENS) if kind in ("array", "arrref") else rng.randrange(0, 9)
@@ -108,6 +111,26 @@ def concurrent(rng, sid, kind, ln=None, nthreads=None, nops=None, p_skip=0.0, hi
         sc["hint"] = hint or rng.choice(["exact", "exact", "inexact", "unbounded"])
     if rng.random() < 0.3:
         sc["pre"] = thread_prog(rng, ln, rng.randrange(1, 3), p_skip=0.0)
+    if kind in CLONABLE and rng.random() < 0.25:
+        # a thread clones the shared iterator while the others pull, and drains its clone
+        t = rng.randrange(nthreads)
+        sc["threads"][t].insert(rng.randrange(len(sc["threads"][t]) + 1), {"op": "cloneuse"})
+    return sc
+
+
+def skip_storm(rng, sid, kind, ln=None):
+    """several skip_to_end calls racing with each other (and a query) after the counter has overshot the end"""
+    if ln is None:
+        ln = rng.choice(ARRAY_LENS) if kind in ("array", "arrref") else rng.randrange(1, 7)
+    pre = [{"op": "chunk", "n": ln + rng.choice([1, 2, 3])}] if rng.random() < 0.7 else thread_prog(rng, ln, 2)
+    threads = [[{"op": "skip"}] * rng.choice([1, 2]) + ([{"op": rng.choice(["len", "next"])}] if rng.random() < 0.4 else [])
+               for _ in range(rng.choice([2, 3]))]
+    sc = {"id": sid, "kind": kind, "len": ln, "pre": pre, "threads": threads, "policy": "rand", "seed": rng.randrange(1 << 30),
+          "post": [{"op": "hasmore"}, {"op": "next"}, {"op": "intoseq"}]}
+    if kind in ("range", "rangeref"):
+        sc["start"] = rng.choice([0, 4])
+    if kind in TICKET_KINDS:
+        sc["hint"] = "exact"
     return sc
 
 
